@@ -1,11 +1,17 @@
 /-
   C13 — Record text synthesises to the right wire record; bad text is an error.
-  Proved here: totality (no string whatsoever makes synthesis panic or loop: it returns a record or
-  an error), and the shape of everything it returns (owner name, fixed header with class IN and the
-  announced data length, data). The grammar round-trip (`synth (render v) = wire v`) is checked by the
-  correspondence + the reference synthesiser, not proved.
+  * `synth_total`: no string whatsoever makes synthesis panic or loop: it returns a record or an error;
+  * `grammar_iff` (Spec/RecordText.lean states the grammar on the text): a text synthesises to `rr`
+    exactly when it is a text of the grammar and `rr` is the RFC 1035 wire record it stands for — owner
+    labels, type, class IN, TTL, data length, data (four address bytes; sixteen from the eight groups
+    with `::` filled by zeros; the name's labels; TXT cut into 255-byte character strings; preference
+    and host; the two SOA names and five 32-bit numbers; DS tag, algorithm, digest type, digest);
+  * `excluded_is_error`: a text outside the grammar yields an error;
+  * `wellformed`: whatever is returned is, placed anywhere in a packet and in any section, a record of
+    the acceptance policy.
+  Inserting it into a valid packet is the subject of the mutator theorems (C08–C10).
 -/
-import DnsModel.Synth
+import DnsModel.Lemmas.SynthSoundGrammar
 namespace Dns.C13
 open Dns Res
 
@@ -124,8 +130,31 @@ theorem rawNameFromStr_total (n : Bytes) (z : Option Bytes) :
     (∃ r, rawNameFromStr n z = .ok r) ∨ (∃ e, rawNameFromStr n z = .err e) :=
   returns_cases (copyRawNameFromStr_returns _ _ _)
 
+/-- **the grammar decides synthesis** -/
+theorem grammar_iff (t rr : Bytes) : synth t = .ok rr ↔ RecordText t rr := synth_iff_grammar t rr
+
+/-- **text the grammar excludes yields an error** -/
+theorem excluded_is_error (t : Bytes) (h : ¬ ∃ rr, RecordText t rr) : ∃ e, synth t = .err e := by
+  rcases synth_total t with ⟨r, hr⟩ | he
+  · exact absurd ⟨r, (grammar_iff t r).1 hr⟩ h
+  · exact he
+
+/-- **anything returned is a well-formed record**: placed anywhere, in any section, it is a record of
+the acceptance policy (not an OPT; class IN by `grammar_iff`) -/
+theorem wellformed {t rr : Bytes} (h : synth t = .ok rr) (sec : Section) (b : Bool) (pre post : Bytes) :
+    ∃ ne', RRAtPos (pre ++ rr ++ post) sec ⟨pre.length, ne', pre.length + rr.length⟩ b b ∧
+      get16 (pre ++ rr ++ post) ne' ≠ 41 := by
+  obtain ⟨owner, f8, rd, hgo, hf8, hlt, h41, hcl, hrd, hrr⟩ := synth_inRecord h
+  obtain ⟨hpos, hcan, hty⟩ := piece_standalone owner hgo f8 rd hf8 hlt h41 hrd sec b
+  rw [← hrr] at hpos hcan hty
+  obtain ⟨ne', hr', _, hty'⟩ := canon_placed hpos hcan pre post
+  exact ⟨ne', hr', by rw [hty', hty]; exact h41⟩
+
 /-! non-vacuity: "a 60 IN A 192.0.2.1" synthesises; "x 1 IN DS 1 1 1 ABC" (odd digest, the D13 witness) is an error -/
 example : synth [97, 32, 54, 48, 32, 73, 78, 32, 65, 32, 49, 57, 50, 46, 48, 46, 50, 46, 49] = .ok [1,97,0, 0,1, 0,1, 0,0,0,60, 0,4, 192,0,2,1] := by decide
 example : synth [120, 32, 49, 32, 73, 78, 32, 68, 83, 32, 49, 32, 49, 32, 49, 32, 65, 66, 67] = .err .parseError := by decide
+
+example : RecordText [97, 32, 54, 48, 32, 73, 78, 32, 65, 32, 49, 57, 50, 46, 48, 46, 50, 46, 49] [1,97,0, 0,1, 0,1, 0,0,0,60, 0,4, 192,0,2,1] :=
+  (grammar_iff _ _).1 (by decide)
 
 end Dns.C13
